@@ -151,11 +151,37 @@ fn check_renum(t: &mut Tape, ctx: &Ctx) -> Outcome {
     if nums0.is_empty() {
         return Outcome::discard("empty program");
     }
-    let last = *nums0.last().unwrap();
+    let mut last = *nums0.last().unwrap();
     if last < 60000 {
+        // the zoo is never executed (it holds LIST, DELETE, RUN): an END in front of it
+        if prog.lines.last().map(|l| l.stmts != vec![Stmt::End]).unwrap_or(false) {
+            last += 1;
+            prog.lines.push(Line { num: last, stmts: vec![Stmt::End] });
+        }
         let gap = t.below(20) as u16;
         let zoo = reference_zoo(t, &nums0, last + 1 + gap);
         prog.lines.extend(zoo);
+    }
+    // sometimes a line that fills the line buffer: RENUM may give it (or a line it mentions) a
+    // longer number
+    let lastn = *prog.line_numbers().last().unwrap();
+    if lastn < 64000 && t.chance(1, 6) {
+        let num = lastn + 1 + t.below(5) as u16;
+        let target = 1024 - t.below(4);
+        let refn = *t.pick(&nums0);
+        let mut pad = String::from(" ");
+        loop {
+            let l = Line { num, stmts: vec![Stmt::Goto(refn), Stmt::Rem { tick: false, text: pad.clone() }] };
+            let len = render_line(&l).text.len();
+            if len >= target {
+                break;
+            }
+            pad.push(if len % 7 == 0 { 'é' } else { 'x' });
+        }
+        let l = Line { num, stmts: vec![Stmt::Goto(refn), Stmt::Rem { tick: false, text: pad }] };
+        if render_line(&l).text.len() <= 1024 {
+            prog.lines.push(l);
+        }
     }
     let nums = prog.line_numbers();
     let new_start = arg_value(t, &nums);
